@@ -482,3 +482,32 @@ def a_required_value_is_asked_for_before_any_default_is_taken(ctx):
                       'default starts with that default, nothing is appended to self.errors and the module is created and registered', g)
     if not n or not tested:
         raise AnchorMissing('the needscfg test / the store of the default value not found in _handle_writes and its helpers')
+
+
+@rule('C10.R13', min_instances=1)
+def configurations_found_by_a_pinata_are_all_processed(ctx):
+    """SecNode.create_modules: Pinata.scanModules() yields further module configurations, which are created (or rejected and
+    reported) like the ones of the configuration file - at every level: a pinata may yield a pinata.  Where the creation of one
+    module is a helper method that RETURNS what its pinata found, that result is used at every call; a call whose result is
+    dropped (`self._create_configured(modname, options)` as a statement) ignores those configurations silently - a good one
+    produces no module, an erroneous one no entry in the error report"""
+    m = ctx.m
+    f = m.method(SN, 'create_modules', inherited=False)
+    ctx.analysed(f)
+    ci = m.cls(SN)
+    n = 0
+    scans = [c for c in calls_in(f.node) if call_attr(c) == 'scanModules']
+    for st in body_walk(f.node):
+        for c in calls_in(st) if isinstance(st, ast.Expr) else []:
+            if c is st.value and isinstance(c.func, ast.Attribute) and dotted(c.func.value) == 'self' and c.func.attr in ci.methods:
+                h = ci.methods[c.func.attr]
+                if any(call_attr(x) == 'scanModules' for x in calls_in(h.node)) and \
+                        any(isinstance(r, ast.Return) and r.value is not None and not (isinstance(r.value, ast.Constant) and r.value.value is None) for r in body_walk(h.node)):
+                    n += 1
+                    ctx.bad(f'{f.qualname}:what a pinata found is processed at every level', st,
+                            f'`{src(st)}` drops what {h.name}() returns - the module configurations its pinata found: they are neither created nor reported', f)
+    helpers = [ci.methods[c.func.attr] for c in calls_in(f.node) if isinstance(c.func, ast.Attribute) and dotted(c.func.value) == 'self' and c.func.attr in ci.methods]
+    if not scans and not any(call_attr(x) == 'scanModules' for h in helpers for x in calls_in(h.node)) and not m.inlined.get(f.qualname):
+        raise AnchorMissing('scanModules() not reached from SecNode.create_modules')
+    if not n:
+        ctx.ok(f'{f.qualname}:what a pinata found is processed at every level', f.node, 'no call drops the configurations a pinata found', f)
